@@ -106,3 +106,15 @@ impl<K: Ord + Copy, V: KeyValue<K>> SetCollection<K, V> for SetList<V> {
         self.buffer.clear();
     }
 }
+#[cfg(ishape_rust_itree_verif)]
+impl<V: Clone> SetList<V> {
+    /// Verification hook: build a list directly from values (the caller supplies them sorted by key).
+    pub fn verif_from_raw(values: Vec<V>) -> Self {
+        Self { buffer: values }
+    }
+
+    /// Verification hook (read-only): the stored values in storage order.
+    pub fn verif_snapshot(&self) -> Vec<V> {
+        self.buffer.clone()
+    }
+}
